@@ -51,6 +51,8 @@ type Interp struct {
 	from  map[*ssa.BasicBlock]*ssa.BasicBlock
 	Err   string
 	steps int
+	// Want: when set, only these results of the function are evaluated at a return
+	Want []int
 }
 
 func (it *Interp) fail(format string, a ...any) AVal {
@@ -145,6 +147,16 @@ func (it *Interp) eval(v ssa.Value) AVal {
 				return AVal{K: 'b', B: a.B || b.B}
 			}
 		}
+		if a.K == 'o' && b.K == 'o' && (a.N == -1 || b.N == -1) && a.N != 0 && b.N != 0 {
+			// comparison with nil: N == -1 is nil, N >= 1 a definite object a rule introduced
+			// (N == 0, an object nothing is known about, stays outside the fragment)
+			switch x.Op {
+			case token.EQL:
+				return AVal{K: 'b', B: a.N == b.N}
+			case token.NEQ:
+				return AVal{K: 'b', B: a.N != b.N}
+			}
+		}
 		if a.K == 'i' && b.K == 'i' {
 			switch x.Op {
 			case token.EQL:
@@ -198,7 +210,17 @@ func (it *Interp) Run() []AVal {
 		switch t := last.(type) {
 		case *ssa.Return:
 			var out []AVal
-			for _, r := range t.Results {
+			for i, r := range t.Results {
+				wanted := it.Want == nil
+				for _, w := range it.Want {
+					if w == i {
+						wanted = true
+					}
+				}
+				if !wanted {
+					out = append(out, AVal{K: '?'})
+					continue
+				}
 				out = append(out, it.eval(r))
 			}
 			return out
